@@ -69,12 +69,49 @@ C12Judged(c, f) == f.kind \in {"or", "unless"} \/ (~c.lor /\ ~c.ror)
 C12Bad(c, f) == /\ f.kind # "unknown"
                 /\ C12Judged(c, f)
                 /\ IF ExpectEmpty(f.kind, c.op) THEN c.nonempty > 0 ELSE c.differs > 0
-\* why a join was declared impossible, in terms of the case (part of the signature)
+\* ---- causes: why pint's claim is wrong, in terms of the abstract case (part of the violation signature) ----
+\* constructs that change a sample value or turn "returns something" around, which the analysis carries
+\* AlwaysReturns / KnownReturn / ReturnedNumber through unchanged
+RECURSIVE Hazards(_)
+Hazards(e) ==
+  CASE e.k \in {"sel", "num", "time"} -> {}
+    [] e.k = "vec" -> Hazards(e.e)
+    [] e.k = "fn"  -> Hazards(e.e) \cup (CASE e.f \in {"absent", "absentot"} -> {"absent"} [] e.f = "neg" -> {"neg"}
+                                           [] e.f = "abs" -> {"abs"} [] OTHER -> {})
+    [] e.k = "agg" -> Hazards(e.e) \cup (IF e.op \in {"count", "cv"} THEN {"count"} ELSE {})
+    [] e.k = "bin" -> Hazards(e.l) \cup Hazards(e.r) \cup (IF IsCmp(e.op) /\ e.bool THEN {"boolcmp"} ELSE {})
+HazardOrder == <<"abs", "absent", "boolcmp", "count", "neg">>
+RECURSIVE JoinFrom(_, _)
+JoinFrom(S, i) == IF i > Len(HazardOrder) THEN ""
+                  ELSE (IF HazardOrder[i] \in S THEN HazardOrder[i] \o "," ELSE "") \o JoinFrom(S, i + 1)
+HazardStr(S) == "[" \o JoinFrom(S, 1) \o "]"
+\* absent(<selector with l="">) somewhere in e: pint guarantees l on it, Prometheus gives it no such label
+RECURSIVE AbsentOfEmpty(_, _)
+AbsentOfEmpty(e, lbl) ==
+  CASE e.k \in {"sel", "num", "time"} -> FALSE
+    [] e.k = "bin" -> AbsentOfEmpty(e.l, lbl) \/ AbsentOfEmpty(e.r, lbl)
+    [] e.k = "fn" /\ e.f \in {"absent", "absentot"} /\ e.e.k = "sel" ->
+         (lbl = "a" /\ e.e.ma = "empty") \/ (lbl = "b" /\ e.e.mb = "empty")
+    [] OTHER -> AbsentOfEmpty(e.e, lbl)
+
 Cause(b, c, f) ==
-  CASE f.kind # "join" -> "-"
-    [] b.vm = "ign" /\ f.label \in b.ls -> "label-is-ignored"
-    [] b.vm = "on" /\ f.label \in ToSet(IF b.grp = "right" THEN c.rcannot ELSE c.lcannot) -> "on-label-on-neither-side"
+  CASE f.kind = "join" ->
+         (CASE b.vm = "ign" /\ f.label \in b.ls -> "label-is-ignored"
+            [] b.vm = "on" /\ f.label \in ToSet(IF b.grp = "right" THEN c.rcannot ELSE c.lcannot) -> "on-label-on-neither-side"
+            [] AbsentOfEmpty(IF b.grp = "right" THEN b.r ELSE b.l, f.label) -> "absent-of-empty-matcher"
+            [] OTHER -> "-")
+    [] f.kind = "or" -> IF ~(b.vm = "on" /\ b.ls = {}) THEN "or-without-on()" ELSE "lhs-always" \o HazardStr(Hazards(b.l))
+    [] f.kind = "unless" -> "rhs-always" \o HazardStr(Hazards(b.r))
+    [] f.kind = "static" -> "static" \o HazardStr(Hazards(b))
     [] OTHER -> "-"
+
+\* causes of every promql/impossible problem of the case (a C04 violation may be their consequence)
+CaseCauses(rec, e) ==
+  UNION {{[kind |-> rec.c12[i].flags[j].kind, cause |-> Cause(SubExpr(e, rec.c12[i].path, 1), rec.c12[i], rec.c12[i].flags[j])]
+            : j \in 1..Len(rec.c12[i].flags)} : i \in 1..Len(rec.c12)}
+\* the series is consistent with a branch the analysis declared dead
+ViaDead(rec, names) == \E i \in 1..Len(rec.branches) :
+                          rec.branches[i].dead /\ ToSet(rec.branches[i].cannot) \cap names = {}
 
 TCase ==
   /\ l <= Len(TraceLog) /\ Rec.ev = "Case"
@@ -96,10 +133,12 @@ TCase ==
           PrintT(<<"VIOL", id, ToJson([p |-> "C04", form |-> "ii", names |-> Rec.sets[i].names, q |-> Rec.q, shape |-> Shape(e),
                                        nbranches |-> Len(Rec.branches),
                                        nlive |-> Cardinality({j \in 1..Len(Rec.branches) : ~Rec.branches[j].dead}),
+                                       viadead |-> ViaDead(Rec, ToSet(Rec.sets[i].names)), causes |-> CaseCauses(Rec, e),
                                        wit |-> Rec.sets[i].wit])>>)
      /\ \A p \in C04i(Rec) :
           PrintT(<<"VIOL", id, ToJson([p |-> "C04", form |-> "i", label |-> p[1], names |-> Rec.sets[p[2]].names, q |-> Rec.q,
-                                       shape |-> Shape(e), nbranches |-> 1, nlive |-> 1, wit |-> Rec.sets[p[2]].wit])>>)
+                                       shape |-> Shape(e), nbranches |-> 1, nlive |-> 1, viadead |-> FALSE, causes |-> {},
+                                       wit |-> Rec.sets[p[2]].wit])>>)
      \* ---- C12 verdicts
      /\ \A i \in 1..Len(Rec.c12) :
           LET c == Rec.c12[i]
